@@ -10,6 +10,7 @@ import (
 	"path/filepath"
 	"strconv"
 	"strings"
+	"sync"
 	"time"
 
 	"github.com/postalsys/muti-metroo/internal/agent"
@@ -45,12 +46,16 @@ type c30World struct {
 	active int
 	events []string
 	dead   bool
+	// stress mode: nothing is parked, callbacks are recorded under their own mutex
+	free  bool
+	smu   sync.Mutex
+	trans []string
 }
 
 var c30W *c30World
 
 func c30Park(w *c30World, where string) {
-	if w.dead {
+	if w.dead || w.free {
 		return
 	}
 	t := w.th[w.active]
@@ -92,9 +97,30 @@ func c30Reset(n int) string {
 	cfg.AutoSleepOnStart = false
 	w.m = sleep.NewManager(cfg, dir, nil)
 	w.m.SetCallbacks(sleep.Callbacks{
-		OnSleep: func() error { w.events = append(w.events, "OnSleep"); return nil },
-		OnWake:  func() error { w.events = append(w.events, "OnWake"); return nil },
+		OnSleep: func() error {
+			if w.free {
+				w.smu.Lock()
+				w.trans = append(w.trans, "S")
+				w.smu.Unlock()
+				return nil
+			}
+			w.events = append(w.events, "OnSleep")
+			return nil
+		},
+		OnWake: func() error {
+			if w.free {
+				w.smu.Lock()
+				w.trans = append(w.trans, "W")
+				w.smu.Unlock()
+				return nil
+			}
+			w.events = append(w.events, "OnWake")
+			return nil
+		},
 		OnPoll: func() error {
+			if w.free {
+				return nil
+			}
 			if !w.dead {
 				w.events = append(w.events, fmt.Sprintf("OnPoll:%d", w.active))
 			}
@@ -102,6 +128,9 @@ func c30Reset(n int) string {
 			return nil
 		},
 		OnPollEnd: func() error {
+			if w.free {
+				return nil
+			}
 			if !w.dead {
 				w.events = append(w.events, fmt.Sprintf("OnPollEnd:%d", w.active))
 			}
@@ -244,6 +273,62 @@ func c30AgentRun(f []string) string {
 	return "bad-op"
 }
 
+// c30Stress: directly after `reset`, G goroutines call Sleep/Wake/Poll at random. Sleep() and Wake()
+// each check and change the state in one critical section and run their callback inside it, so
+// the OnSleep/OnWake callbacks must strictly alternate starting with OnSleep, the final state must
+// agree with the last callback, and once everything has returned the state file must agree with
+// the state. (A change that splits check and write lets two Sleep() calls both run OnSleep.)
+func c30Stress(w *c30World, f []string) string {
+	g, _ := strconv.Atoi(f[1])
+	iters, _ := strconv.Atoi(f[2])
+	seed, _ := strconv.ParseInt(f[3], 10, 64)
+	for _, t := range w.th {
+		if t.pc != 0 {
+			return "stress-not-at-start"
+		}
+	}
+	w.free = true
+	var wg sync.WaitGroup
+	for i := 0; i < g; i++ {
+		wg.Add(1)
+		go func(r *rng) {
+			defer wg.Done()
+			for j := 0; j < iters; j++ {
+				switch r.intn(3) {
+				case 0:
+					_ = w.m.Sleep()
+				case 1:
+					_ = w.m.Wake()
+				default:
+					_ = w.m.Poll()
+				}
+			}
+		}(newRng(seed*1000 + int64(i)))
+	}
+	wg.Wait()
+	w.free = false
+	for i, x := range w.trans {
+		want := "S"
+		if i%2 == 1 {
+			want = "W"
+		}
+		if x != want {
+			return fmt.Sprintf("stress-fail callbacks-do-not-alternate-at-%d", i)
+		}
+	}
+	st := w.m.GetState()
+	if n := len(w.trans); n > 0 {
+		if (w.trans[n-1] == "W") != (st == sleep.StateAwake) {
+			return "stress-fail state-disagrees-with-last-callback"
+		}
+		if file := c30File(w); file != st.String() {
+			return "stress-fail persisted-state-differs-when-quiescent"
+		}
+	}
+	w.trans = nil
+	return "stress-ok"
+}
+
 func c30Run(line string) string {
 	f := fields(line)
 	switch f[0] {
@@ -258,6 +343,8 @@ func c30Run(line string) string {
 	}
 	w := c30W
 	switch f[0] {
+	case "stress":
+		return c30Stress(w, f)
 	case "sleep":
 		return c30Out(w, c30Err(w.m.Sleep()))
 	case "wake":
@@ -425,6 +512,13 @@ func c30Gen(w *bufio.Writer, seed int64, tier string) {
 		for _, o := range ops {
 			fmt.Fprintln(w, o)
 		}
+	}
+	nstress := 4
+	if tier == "thorough" {
+		nstress = 40
+	}
+	for c := 0; c < nstress; c++ {
+		fmt.Fprintf(w, "reset 1\nstress %d %d %d\n", 4+r.intn(5), 200+r.intn(300), r.intn(1000))
 	}
 	na := 6
 	if tier == "thorough" {
